@@ -367,7 +367,7 @@ func init() {
 		Assumptions: []string{"large limits; a LIMIT outcome of the parent is inconclusive"},
 		NumCases: func(tier string) int {
 			if tier == "thorough" {
-				return 6000
+				return 36000
 			}
 			return 250
 		},
@@ -393,7 +393,7 @@ func init() {
 		Assumptions: []string{"error-free fragment (an erroring block rule legitimately aborts the whole authorization)"},
 		NumCases: func(tier string) int {
 			if tier == "thorough" {
-				return 5000
+				return 36000
 			}
 			return 250
 		},
